@@ -2,10 +2,15 @@
     [defaultResponseMessageCount] candidates in id order.  A message is returned iff it is a
     candidate and fewer than that many candidates (non-EVM payloads of the queue included) have a
     smaller id. *)
-From Coq Require Import List ZArith Bool Lia Sorting.Sorted.
+From Coq Require Import String List ZArith Bool Lia Sorting.Sorted.
 From Paloma Require Import Base.Dec Cons.Fees Cons.Relay Cons.RelayProofs.
+From Paloma Require Gen.C14.
 Import ListNotations.
 Open Scope Z_scope.
+
+Example relay_cap_shape_is :
+  Gen.C14.relay_cap_shape = "if len(msgs) > defaultResponseMessageCount {msgs = msgs[:defaultResponseMessageCount];}"%string.
+Proof. reflexivity. Qed.
 
 Definition older_than (m : qmsg) (l : list qmsg) : list qmsg := filter (fun x => mid x <? mid m) l.
 
